@@ -249,6 +249,9 @@ J gen_tunnel(uint64_t seed, const J &ov)
 		f.set("p_rd_newid", r.chance(0.7) ? r.uniform() : 0.0);
 		f.set("p_rd_recase", b32 && r.chance(0.7) ? r.uniform() * 0.8 : 0.0);
 		f.set("p_rd_altsrc", r.chance(0.4) ? r.uniform() * 0.3 : 0.0);
+		// copies that ask the same name with ANOTHER query type are new questions, not repeats: only in the jobs of C10/C14
+		// (every answer must echo the id/name/type of a distinct received query), never under the C16 oracles
+		if (ov.getb("retype")) f.set("p_rd_retype", r.chance(0.7) ? 0.05 + r.uniform() * 0.4 : 0.0);
 		f.set("rd_max_delay_us", (long long)(r.chance(0.5) ? r.range(1000, 200000) : r.range(200000, 3000000)));
 		cfg.set("faults", f);
 		cfg.set("dur_s", (int)(W + 45));
